@@ -87,7 +87,7 @@ Definition spec_new (s:sstate) (name:list byte) (p:N) (hdr:list byte) (caches:li
   if (65535 <? len (data_header pn hdr))%N then (s0, is_err) else                    (* C17: failing create leaves nothing *)
   if any_stale fs name caches then (s0, is_err) else
   let h := {| sh_name := name; sh_p := pn; sh_hdr := hdr; sh_caches := caches; sh_cb := cb;
-              sh_lines := []; sh_region := []; sh_full := None |} in
+              sh_rlines := []; sh_rregion := []; sh_full := None |} in
   ({| ss_fs := fs; ss_h := Some h; ss_det := ss_det s0 |}, fun o => is_out o (ROpened p hdr)).
 
 Definition spec_open (s:sstate) (name:list byte) (popt:option N) (hdr:hdropt) (caches:list N) (cb:cbmode) : sstate * (out -> bool) :=
@@ -109,7 +109,7 @@ Definition spec_open (s:sstate) (name:list byte) (popt:option N) (hdr:hdropt) (c
           | Some (l, good) =>
               if negb (wf_lines p l) then (undetermined s0, anything) else
               let h := {| sh_name := name; sh_p := p; sh_hdr := pf_user pf; sh_caches := caches; sh_cb := cb;
-                          sh_lines := l; sh_region := take good (pf_region pf);
+                          sh_rlines := frev l; sh_rregion := frev (take good (pf_region pf));
                           sh_full := last_full p (take good (pf_region pf)) |} in
               let s1 := {| ss_fs := sfs_del fs (name ++ s_ext_part); ss_h := Some h; ss_det := ss_det s0 |} in
               match hdr with
@@ -144,10 +144,10 @@ Definition set_h (s:sstate) (h:shandle) : sstate := {| ss_fs := ss_fs s; ss_h :=
 
 Definition spec_push (s:sstate) (ts:N) (pay:list byte) : sstate * (out -> bool) :=
   with_h s (fun h =>
-    if accepts (sh_p h) (sh_lines h) ts pay then
+    if accepts_r (sh_p h) (sh_rlines h) ts pay then
       let '(b, f') := tail_bytes (sh_p h) (sh_full h) (ts, pay) in
       (set_h s {| sh_name := sh_name h; sh_p := sh_p h; sh_hdr := sh_hdr h; sh_caches := sh_caches h; sh_cb := sh_cb h;
-                  sh_lines := sh_lines h ++ [(ts, pay)]; sh_region := sh_region h ++ b; sh_full := f' |},
+                  sh_rlines := (ts, pay) :: sh_rlines h; sh_rregion := rev_append b (sh_rregion h); sh_full := f' |},
        fun o => is_out o RUnit)
     else (s, is_err)).                                   (* C03: refused, nothing changes *)
 
@@ -201,6 +201,14 @@ Definition spec_step (s:sstate) (o:op) : sstate * (out -> bool) :=
                                           | Some c => (sfs_put fs f (c ++ b), fun o => is_out o RUnit)
                                           | None => (fs, no_file)
                                           end)
+  | OFsCut f k => spec_fs s (fun fs => match sfs_get fs f with
+                                       | Some c => (sfs_put fs f (take (len c - k) c), fun o => is_out o RUnit)
+                                       | None => (fs, no_file)
+                                       end)
+  | OFsPatch f k b => spec_fs s (fun fs => match sfs_get fs f with
+                                           | Some c => (sfs_put fs f (patch_from_end c k b), fun o => is_out o RUnit)
+                                           | None => (fs, no_file)
+                                           end)
   end.
 End SpecStep.
 
